@@ -522,10 +522,11 @@ class Interp:
             return ("mir", fn, [env] + list(args))
         raise Inconclusive("call of non-function value %r" % (f,))
 
-    def exec(self, ctx, stack):
+    def exec(self, ctx, stack, base=None):
         """runs until the bottom frame of `stack` returns; returns its value.  In bmc mode the
         `ctx.on_visible` hook may raise to stop in front of a visible operation."""
-        base = len(stack)
+        if base is None:
+            base = len(stack)
         while True:
             fr = stack[-1]
             fn = fr.fn
@@ -597,7 +598,13 @@ class Interp:
                 raise Inconclusive("unparsed terminator in %s: %s" % (fn.name, t.text))
 
     def do_drop(self, ctx, fr, place):
-        pass
+        if place.projs:
+            return
+        c = fr.cells.get(place.local)
+        if c is not None and isinstance(c.v, Tup) and c.v.name == "MutexGuard":
+            m = c.v.fields[0]
+            m.cell.v = set_path(m.cell.v, m.path + (0,), z3.BoolVal(False))
+            c.v = None
 
     def do_switch(self, ctx, v, arms, otherwise):
         if z3.is_expr(v) and z3.is_bool(v):
